@@ -371,6 +371,11 @@ func unitWithHelpers(p *an.Prog, fn *ssa.Function) []*ssa.Function {
 		}
 		an.EachCall(f, func(ci ssa.CallInstruction) {
 			c := ci.Common().StaticCallee()
+			if c != nil {
+				if o := c.Origin(); o != nil {
+					c = o // an instance of a generic helper: its body is the generic's
+				}
+			}
 			if c != nil && p.InModule(c) && c.Pkg != nil && an.Outermost(fn).Pkg == c.Pkg && c.Parent() == nil {
 				add(c, depth+1)
 			}
@@ -385,8 +390,14 @@ func callSitesOf(p *an.Prog, fn *ssa.Function) []*ssa.Call {
 	var out []*ssa.Call
 	for _, f := range p.Funcs {
 		an.EachInstr(f, func(in ssa.Instruction) {
-			if c, ok := in.(*ssa.Call); ok && c.Call.StaticCallee() == fn {
-				out = append(out, c)
+			if c, ok := in.(*ssa.Call); ok {
+				callee := c.Call.StaticCallee()
+				if callee != nil && callee.Origin() != nil {
+					callee = callee.Origin()
+				}
+				if callee == fn {
+					out = append(out, c)
+				}
 			}
 		})
 	}
